@@ -61,6 +61,10 @@ var switches = map[string]map[string][]float64{
 var noDefaults = map[string]bool{"GR4J": true, "DateGenerator": true, "Lag": true, "Storage": true, "RatingCurvePartition": true,
 	"Muskingum": true, "StorageRouting": true}
 
+// defaultBias: probability that a parameter takes its catalogue default (engines raise it for
+// "defaults-heavy" draws so that not-configured branches are exercised systematically)
+var defaultBias = 0.125
+
 var intParams = map[string]bool{"DateGenerator.startDate": true, "DateGenerator.startMonth": true, "DateGenerator.startYear": true,
 	"DynamicSednetGully.YearDisturbance": true, "DynamicSednetGully.GullyEndYear": true,
 	"DynamicSednetGullyAlt.YearDisturbance": true, "DynamicSednetGullyAlt.GullyEndYear": true}
@@ -196,7 +200,7 @@ func genCase(r *rand.Rand, name string, nSets, nCells, nBlocks, T int) *modelCas
 				v := uni(r, rg.lo, rg.hi)
 				if sw, ok := switches[name][p.Name]; ok && r.Intn(3) == 0 {
 					v = sw[r.Intn(len(sw))]
-				} else if !noDefaults[name] && r.Intn(8) == 0 {
+				} else if !noDefaults[name] && r.Float64() < defaultBias {
 					v = p.Default // catalogue defaults (often 0) select "not configured" branches
 				}
 				if intParams[name+"."+p.Name] {
